@@ -485,11 +485,13 @@ def be_range(n, base=0):
     return range(base - 1, base + n + 3)
 
 
-def enum_cases(alphabet, lengths, states=(17, 12), awaiting_every=1):
+def enum_cases(alphabet, lengths, states=(17, 12), awaiting_every=1, every=1, phase=0):
     idx = 0
     for n in lengths:
         for J in itertools.product(alphabet, repeat=n):
             idx += 1
+            if (idx + phase) % every:
+                continue
             for st in states:
                 if st == 12 and idx % awaiting_every:
                     continue
@@ -659,7 +661,7 @@ def run_both(ctx, impl, drv, cases, stats, dis, impl_fail, maxdis=40):
 MAG_RULE_T = ("; MAGNITUDE: for each of 16 round constants K (9 .. 999999, 1000000, 2^31-1, 2^31, 2^32, 2^53, sys.maxsize) every "
               "journal of length <= 2 over the 6 slot classes placed at every offset that makes K the number before the journal, "
               "one of its rows, its last row or the next number x every BeginSeqNo / EndSeqNo in {numbers around the journal, K-1, "
-              "K, K+1, 0} x both states, + 12 sampled journals of length 3 (14 kinds) per K with the edge requests; the request's own "
+              "K, K+1, 0} x ACTIVE (length <= 1 also RESENDREQ_AWAITING), + 12 sampled journals of length 3 (14 kinds) per K with the edge requests; the request's own "
               "MsgSeqNum at 5 / K-1 / K / K+1; protocol dictionary rotating FIXProtocol44 / custom FIXProtocolBase subclass "
               "without session_message_types / beginstring-only subclass in ALL enumerations; 300 long journals (30-120 numbers); "
               "sampled requests with BeginSeqNo / EndSeqNo spelled with leading zeros, '+', white space, '_'")
@@ -682,14 +684,15 @@ def correspondence(ctx):
         if ctx.tier == "thorough":
             rule = ("complete: every journal of length <= 3 over the 14 slot kinds x every (b, e) in [-1, len+2]^2 x {ACTIVE, "
                     "RESENDREQ_AWAITING}; every journal of length 4 and 5 over the 6 slot classes (the session type of an 's' slot "
-                    "rotates through all 6, an application slot through plain / 43=N / 43=other / stale-122) x every (b, e) x ACTIVE, and x RESENDREQ_AWAITING for length 4 and every 5th journal "
-                    "of length 5; + 10000 sampled cases (length <= 5, all 14 kinds, counters 1 / 7 / 2^32, filter modes, 1-3 "
+                    "rotates through all 6, an application slot through plain / 43=N / 43=other / stale-122) x every (b, e) x ACTIVE (length 5: every 3rd journal, the third chosen by VERIF_SEED), and x RESENDREQ_AWAITING "
+                    "for length 4 and every 9th journal of length 5; + 8000 sampled cases (length <= 5, all 14 kinds, counters 1 / 7 / 2^32, filter modes, 1-3 "
                     "requests in sequence)")
             n += run_both(ctx, impl, drv, enum_cases(FULL, range(0, 4)), stats, dis, impl_fail)
             n += run_both(ctx, impl, drv, enum_cases(RED, [4]), stats, dis, impl_fail)
-            n += run_both(ctx, impl, drv, enum_cases(RED, [5], awaiting_every=5), stats, dis, impl_fail)
-            n += run_both(ctx, impl, drv, sample_cases(ctx.rng, 10000, 5), stats, dis, impl_fail)
-            n += run_both(ctx, impl, drv, offset_cases(RED, range(0, 3), states=(17, 12)), stats, dis, impl_fail)
+            n += run_both(ctx, impl, drv, enum_cases(RED, [5], awaiting_every=9, every=3, phase=ctx.seed), stats, dis, impl_fail)
+            n += run_both(ctx, impl, drv, sample_cases(ctx.rng, 8000, 5), stats, dis, impl_fail)
+            n += run_both(ctx, impl, drv, offset_cases(RED, range(0, 2), states=(17, 12)), stats, dis, impl_fail)
+            n += run_both(ctx, impl, drv, offset_cases(RED, [2]), stats, dis, impl_fail)
             n += run_both(ctx, impl, drv, offset_cases(FULL, [3], ctx.rng, per_len=12, edge_only=True), stats, dis, impl_fail)
             n += run_both(ctx, impl, drv, long_cases(ctx.rng, 300), stats, dis, impl_fail)
             rule += MAG_RULE_T
